@@ -204,7 +204,7 @@ def run_shard(ctx):
     acc = ctx.acc
     base = [s for (l, s) in base_statements(ctx.seed, 1500 if ctx.tier == 'quick' else 8000)]
     vocab = sqlgen.keyword_vocab(monitors.lexer_classes()['mindsdb'])
-    n = 14000 if ctx.tier == 'quick' else 200000
+    n = 14000 if ctx.tier == 'quick' else 600000
     for j in range(n):
         if not ctx.mine(j):
             continue
